@@ -272,7 +272,7 @@ def finish(
             print(f"BROKEN: vacuous exploration: {desc}")
             sys.exit(2)
     known = load_known(prop)
-    rdir = os.path.join(boot.VERIF_ROOT, "replays", prop)
+    rdir = os.path.join(os.environ.get("VERIF_REPLAY_DIR") or os.path.join(boot.VERIF_ROOT, "replays"), prop)
     os.makedirs(rdir, exist_ok=True)
     nviol = 0
     lines = []
@@ -350,7 +350,7 @@ def finish(
         "wall_s": round(wall, 2),
         "violations": nviol,
     }
-    edir = os.path.join(boot.VERIF_ROOT, "evidence")
+    edir = os.environ.get("VERIF_EVIDENCE_DIR") or os.path.join(boot.VERIF_ROOT, "evidence")
     os.makedirs(edir, exist_ok=True)
     with open(os.path.join(edir, f"{prop}.json"), "w") as f:
         json.dump(ev, f, indent=1, default=str)
